@@ -195,6 +195,33 @@ def pcn_scale_history(c, how):
     c.eq('proposal_uses_the_current_scale', np.asarray(rec[0]).reshape(-1), m + c.sqrt(1 - sc2 * sc2) * (x0 - m) + sc2 * (xi - m))
 
 
+def checkpoint_reload_invariant(c, geom):
+    """history 'after state reload' through the checkpoint file: an experimental PCN whose prior carries a geometry (identity-like, or one whose parameter-to-
+    function map is NOT the identity) is run until it has moved, saved with save_checkpoint and loaded into a fresh sampler: the reloaded state is the saved
+    state as PARAMETER vector, and the cached likelihood value is the likelihood AT that state - so the next acceptance ratio is L(x')/L(x) (bounded: native)"""
+    import cuqi, tempfile, os, io, contextlib
+    from cuqi.distribution import Gaussian, Posterior
+    from cuqi.likelihood import UserDefinedLikelihood
+    n = 2
+    g = cuqi.geometry.Continuous1D(n) if geom == 'Continuous1D' else cuqi.geometry.MappedGeometry(cuqi.geometry.Continuous1D(n), map=lambda v: np.exp(v), imap=lambda f: np.log(f))
+    b = np.array([c.real('b0'), c.real('b1')])
+    ll = lambda v: -0.5 * float(np.sum((np.asarray(v, dtype=float).reshape(-1) - b) ** 2))
+    def mk():
+        prior = Gaussian(np.zeros(n), 1.0, geometry=g, name='x')
+        return cuqi.experimental.mcmc.PCN(Posterior(UserDefinedLikelihood(dim=n, logpdf_func=ll, geometry=g), prior), scale=0.4, initial_point=0.3 * np.ones(n))
+    np.random.seed(int(c.real('seed', lo=0, hi=10 ** 6)))
+    with contextlib.redirect_stderr(io.StringIO()):
+        s = mk(); s.sample(12)
+        x = np.asarray(s.current_point, dtype=float).copy()
+        d = tempfile.mkdtemp(dir=os.environ.get('TMPDIR')); path = os.path.join(d, 'ckpt.pickle')
+        s.save_checkpoint(path)
+        t = mk(); t.load_checkpoint(path); os.remove(path); os.rmdir(d)
+    c.holds('harness:the_chain_has_moved', bool(np.any(x != 0.3)), note=str(x))
+    c.eq('reloaded_state_is_the_saved_parameter_vector', np.asarray(t.current_point, dtype=float), x, tol=0)
+    c.eq('saving_leaves_the_running_sampler_at_its_state', np.asarray(s.current_point, dtype=float), x, tol=0)
+    c.eq('reloaded_cached_likelihood_value_belongs_to_the_reloaded_state', float(t.current_likelihood_logd), ll(x), tol=1e-12)
+
+
 def fresh_sampler_invariant(c, name):
     """history 'fresh': a sampler built by its PUBLIC constructor with an explicit starting point x0 (any point, not the default) and initialised
     (also re-initialised) satisfies the invariant the kernel contracts start from - the state is x0 and every cached evaluation is the target's
@@ -515,6 +542,9 @@ def jobs(tier):
     for iface, form in (('exp', 'posterior'), ('leg', 'posterior'), ('leg', 'tuple')):
         J.append(Job(f'{"experimental" if iface == "exp" else "legacy"}.pCN:public_constructor:target_form={form}', lambda c, i=iface, f=form: pcn_target_forms(c, i, f), 'Pbox',
                      [(EXP if iface == 'exp' else LEG) + '._pcn:' + ('PCN.validate_target' if iface == 'exp' else 'pCN.target')], nnum=3))
+    for geom in ('Continuous1D', 'Mapped'):
+        J.append(Job(f'experimental.PCN:history:checkpoint_reload:prior_geometry={geom}', lambda c, g=geom: checkpoint_reload_invariant(c, g), 'B',
+                     [EXP + '._sampler:Sampler.save_checkpoint', EXP + '._sampler:Sampler.load_checkpoint', EXP + '._pcn:PCN.step'], nnum=3))
     for how in ('attribute', 'set_state'):
         J.append(Job(f'experimental.PCN:history:scale_changed_after_initialisation_by_{how}', lambda c, h=how: pcn_scale_history(c, h), 'Pbox',
                      [EXP + '._pcn:PCN.step', EXP + '._pcn:PCN._initialize', EXP + '._sampler:Sampler.set_state'], nnum=6))
